@@ -33,7 +33,7 @@ type memCase struct {
 	Len      int    // message length (adjusted to the algorithm's granularity for the ok paths)
 	AadLen   int
 	Spare    []int  // spare capacity of the i-th []byte argument (cyclic)
-	Dst      string // aescbcaead only: nil, sep (separate buffer), inplace (argument[:0])
+	Dst      string // aescbcaead only: nil, sep (separate buffer whose capacity is DstLen + spare), room (separate buffer whose capacity holds the whole result, whatever its size, + spare), inplace (argument[:0])
 	DstLen   int
 	NilEmpty bool // pass nil instead of an empty slice without spare capacity
 	// Layout of the arguments in the caller's memory. Pack == nil: every argument in a canary region of its own.
@@ -94,6 +94,7 @@ type argSpec struct {
 	name    string
 	content []byte
 	kind    argKind
+	extra   int // argDst: capacity on top of the spare capacity of the case (room for the result)
 }
 
 func plain(name string, content []byte) argSpec { return argSpec{name: name, content: content} }
@@ -139,7 +140,7 @@ func (k *call) layout(specs ...argSpec) [][]byte {
 		case argKey:
 			out[i] = k.a.cut(s.name, s.content, spares[i])
 		case argDst:
-			out[i] = k.a.dst(s.name, s.content, spares[i])
+			out[i] = k.a.dst(s.name, s.content, spares[i]+s.extra)
 		case argInPlace:
 			out[i] = k.a.cut(s.name, s.content, spares[i])
 			k.a.reuseAsDst(s.name)
@@ -731,16 +732,21 @@ var aeadCtor = map[string]func([]byte) (cipher.AEAD, error){
 
 // aeadArgs places key, (dst,) message, nonce and additional data, builds the AEAD over the caller's key (the constructor
 // keeps sub-slices of it) and returns dst, message, nonce, additional data.
-func (k *call) aeadArgs(keyB []byte, msgName string, msgB, nonceB, aadB []byte) (a cipher.AEAD, dst, msg, nonce, aad []byte) {
+// need is the number of bytes the call appends to dst when it succeeds (Dst "room": dst has capacity for them).
+func (k *call) aeadArgs(keyB []byte, msgName string, msgB, nonceB, aadB []byte, need int) (a cipher.AEAD, dst, msg, nonce, aad []byte) {
 	c := k.c
 	var m [][]byte
+	room := 0
+	if c.Dst == "room" {
+		room = need
+	}
 	switch c.Dst {
 	case "inplace":
 		m = k.layout(plain("key", keyB), argSpec{name: msgName, content: msgB, kind: argInPlace}, plain("nonce", nonceB), plain("additionalData", aadB))
 		msg, nonce, aad = m[1], m[2], m[3]
 		dst = msg[:0]
-	case "sep":
-		m = k.layout(plain("key", keyB), argSpec{name: "dst", content: k.rnd("dst", c.DstLen), kind: argDst}, plain(msgName, msgB), plain("nonce", nonceB), plain("additionalData", aadB))
+	case "sep", "room":
+		m = k.layout(plain("key", keyB), argSpec{name: "dst", content: k.rnd("dst", c.DstLen), kind: argDst, extra: room}, plain(msgName, msgB), plain("nonce", nonceB), plain("additionalData", aadB))
 		dst, msg, nonce, aad = m[1], m[2], m[3], m[4]
 	default:
 		m = k.layout(plain("key", keyB), plain(msgName, msgB), plain("nonce", nonceB), plain("additionalData", aadB))
@@ -756,7 +762,7 @@ func (k *call) aeadArgs(keyB []byte, msgName string, msgB, nonceB, aadB []byte) 
 func (k *call) seal() {
 	c := k.c
 	p := refcrypto.CBCHMACByName(c.Alg)
-	a, dst, pt, nonce, aad := k.aeadArgs(k.rnd("key", p.KeyLen()), "plaintext", k.rnd("pt", c.Len), k.rnd("nonce", 16), k.rnd("aad", c.AadLen))
+	a, dst, pt, nonce, aad := k.aeadArgs(k.rnd("key", p.KeyLen()), "plaintext", k.rnd("pt", c.Len), k.rnd("nonce", 16), k.rnd("aad", c.AadLen), c.Len-c.Len%16+16+p.TagLen)
 	if k.harness != "" {
 		return
 	}
@@ -794,7 +800,7 @@ func (k *call) open() {
 		e, tg, reached = nil, tg[:int(c.Seed%uint64(len(tg)))], false
 	}
 	ctB := append(append([]byte{}, e...), tg...)
-	a, dst, ct, nonce, aad := k.aeadArgs(keyB, "ciphertext", ctB, nonceB, aadB)
+	a, dst, ct, nonce, aad := k.aeadArgs(keyB, "ciphertext", ctB, nonceB, aadB, len(ctB))
 	if k.harness != "" {
 		return
 	}
@@ -809,6 +815,14 @@ func (k *call) open() {
 var parseKeyFormats = []string{"raw16", "raw32", "raw-other", "base64std", "base64url", "base64pad", "jwk-oct", "jwk-ec", "pem-pkcs8", "pem-pkix", "garbage"}
 var parseKeyModes = []string{"auto", "typed"}
 
+// keyTextLen is the number of key bytes behind an encoded key: 1..64, or the whole length for the large size classes.
+func keyTextLen(n int) int {
+	if n >= bigFrom {
+		return n
+	}
+	return 1 + n%64
+}
+
 func (k *call) parseKey() {
 	c := k.c
 	var in []byte
@@ -822,13 +836,13 @@ func (k *call) parseKey() {
 	case "raw-other":
 		in = append([]byte{0xff, 0xfe}, k.rnd("k", c.Len)...)
 	case "base64std":
-		in = []byte(base64.StdEncoding.EncodeToString(k.rnd("k", 1+c.Len%64)))
+		in = []byte(base64.StdEncoding.EncodeToString(k.rnd("k", keyTextLen(c.Len))))
 	case "base64url":
-		in = []byte(base64.RawURLEncoding.EncodeToString(append([]byte{0xfb, 0xff}, k.rnd("k", 1+c.Len%64)...)))
+		in = []byte(base64.RawURLEncoding.EncodeToString(append([]byte{0xfb, 0xff}, k.rnd("k", keyTextLen(c.Len))...)))
 	case "base64pad":
-		in = []byte(base64.StdEncoding.EncodeToString(k.rnd("k", 1+c.Len%64)) + "=\n\n")
+		in = []byte(base64.StdEncoding.EncodeToString(k.rnd("k", keyTextLen(c.Len))) + "=\n\n")
 	case "jwk-oct":
-		in, _ = json.Marshal(map[string]string{"kty": "oct", "k": base64.RawURLEncoding.EncodeToString(k.rnd("k", 1+c.Len%64))})
+		in, _ = json.Marshal(map[string]string{"kty": "oct", "k": base64.RawURLEncoding.EncodeToString(k.rnd("k", keyTextLen(c.Len)))})
 		ct = "application/json"
 	case "jwk-ec":
 		in, _ = json.Marshal(fixedJWK("p256"))
